@@ -192,7 +192,7 @@ Definition list_max (l : list nat) : nat := fold_left Nat.max l O.
 
 (* ================================================================== partial trace *)
 (* one einsum step of partial_trace: contract row axis p with column axis p *)
-Fixpoint ptrace1 (p : nat) (t : qt) : qt :=
+Fixpoint ptrace1 (p : nat) (t : qt) {struct t} : qt :=
   match t with
   | QL x => QL x
   | QN a b c d =>
@@ -300,6 +300,34 @@ Definition agree_off (wires wo : list nat) (r c : list bool) : bool :=
           (combine (seq 0 (length wo)) wo).
 Definition expand_spec (t : qt) (wires wo : list nat) (r c : list bool) : C :=
   if agree_off wires wo r c then tget t (gather wires wo r) (gather wires wo c) else c0.
+
+(* ================================================================== definitions used by the theorems (specification side) *)
+(* composing two mask contractions: m2 lives on the qubits kept by m1 *)
+Fixpoint mask_merge (m1 m2 : list bool) : list bool :=
+  match m1 with
+  | [] => m2
+  | true :: m1' => true :: mask_merge m1' m2
+  | false :: m1' =>
+      match m2 with b :: m2' => b :: mask_merge m1' m2' | [] => false :: mask_merge m1' [] end
+  end.
+Definition mask_off (n i : nat) (idxs : list nat) : list bool := map (fun j => mem j idxs) (seq i n).
+Fixpoint strictb (l : list nat) : bool :=
+  match l with x :: r => match r with y :: _ => Nat.ltb x y && strictb r | [] => true end | [] => true end.
+Definition count_false (m : list bool) : nat := length (filter negb m).
+
+(* 2^k *)
+Fixpoint qpow2 (k : nat) : Q := match k with O => 1%Q | S j => (2 * qpow2 j)%Q end.
+(* equality of bit strings *)
+Fixpoint bits_eqb (r c : list bool) : bool :=
+  match r, c with
+  | [], [] => true
+  | a :: r', b :: c' => Bool.eqb a b && bits_eqb r' c'
+  | _, _ => false
+  end.
+(* expand_matrix of an operator acting on the contiguous block of wires p .. p+k-1 of p+k+q ordered wires *)
+Definition expand_contiguous_spec (p q : nat) (t : qt) : qt :=
+  let t3 := if Nat.ltb 0 p then tkron (teye p) t else t in
+  if Nat.ltb 0 q then tkron t3 (teye q) else t3.
 
 (* ================================================================== correspondence interface *)
 (* matrices arrive as integer Gaussian entries over a common positive denominator *)
